@@ -324,6 +324,8 @@ def mon_c17(c):
 
 
 def mon_c18(c):
+    if c.obs.get('BT', 'ok') != 'ok':
+        return 'build() of a %d-function graph exceeded the wall-clock budget: %s' % (len(c.ref()[0].nodes), c.obs.get('BT'))
     rb, _ = c.ref()
     if rb.panicked or 'P' not in c.obs:
         return None
